@@ -22,7 +22,7 @@ EXPLANATION = (
     "format_* helper - otherwise a line comment of a CRLF file keeps its carriage return. Not decided: 'exactly one line "
     "ending at EOF' beyond the shape; raw nodes returned whole by a formatter (the rule judges token collections, not "
     "nodes rebuilt with with_*())."
-    "Later rounds: (R-BUILDER) a `to_owned().with_*()` chain over a cloned input node replaces every field of the struct (fields from the ADT facts). Rounds 17-19: (R-PRINT); (R-SKIP(d)) toggle pairing. Not decided: which trivia ends up at the start of a line (seed C10-index-padding-after-indent is not caught).")
+    "Later rounds: (R-BUILDER) a `to_owned().with_*()` chain over a cloned input node replaces every field of the struct (fields from the ADT facts). Rounds 17-19: (R-PRINT); (R-SKIP(d)) toggle pairing. Not decided: which trivia ends up at the start of a line (seed C10-index-padding-after-indent is not caught). Rounds 20-21: (R-RAWNODE(closure)) closures of formatter functions never return a bare clone of an input node.")
 ASSUMPTIONS = ["full_moon::TokenType::spaces/tabs produce exactly n spaces / tabs",
                "rustc MIR and Instance::try_resolve are trusted"]
 
